@@ -16,20 +16,20 @@ ROOT = cf.ROOT
 
 # which suites decide which property, per tier
 PLAN = {
-    "C01": {"quick": ["struct3", "struct4s", "struct5s", "struct3z", "struct3p", "seg13z", "prims3", "primseg", "seg6s", "struct3k", "feat333z"],
+    "C01": {"quick": ["struct3", "struct4s", "struct5s", "struct3z", "struct3p", "seg13z", "prims3", "primseg", "seg6s", "feat333z"],
             "thorough": ["struct3", "struct4s", "struct5s", "struct3c", "struct3z", "struct3p", "struct4", "seg13", "seg13z", "seg22", "seg3d", "feat13",
                          "prims3", "primseg", "struct3k", "feat333z", "struct3w"]},
     "C03": {"quick": ["struct3", "struct4s", "struct5s", "struct4n0", "struct3w"], "thorough": ["struct3", "struct4s", "struct5s", "struct4", "seg13", "struct4n0", "struct3k", "struct3w"]},
     "C04": {"quick": ["struct3", "struct4s", "struct5s", "struct4n0", "struct3zf", "struct3zc", "struct3k"], "thorough": ["struct3", "struct4s", "struct5s", "struct4", "seg13", "struct4n0", "struct3zf", "struct3zc", "struct3k", "struct3w"]},
     "C05": {"quick": ["struct3", "struct4s", "struct5s", "struct4n0", "struct3zf", "struct3zc"], "thorough": ["struct3", "struct4s", "struct5s", "struct4", "seg13", "struct4n0", "struct3zf", "struct3zc", "struct3k", "struct3w"]},
-    "C06": {"quick": ["struct3", "struct4s", "struct5s", "struct4n0", "struct3zf", "struct3zc", "struct3k", "struct3w"], "thorough": ["struct3", "struct4s", "struct5s", "struct4", "seg13", "struct4n0", "struct3zf", "struct3zc", "struct3k", "struct3w"]},
+    "C06": {"quick": ["struct3", "struct4s", "struct5s", "struct4n0", "struct3zf", "struct3zc", "struct3w"], "thorough": ["struct3", "struct4s", "struct5s", "struct4", "seg13", "struct4n0", "struct3zf", "struct3zc", "struct3k", "struct3w"]},
     "C07": {"quick": ["seg13", "seg3d", "seg6s", "seg13w", "seg13v"], "thorough": ["seg13", "seg22", "seg3d", "seg13n", "seg6s", "seg13w", "seg13v"]},
     "C08": {"quick": ["seg13", "seg3d", "feat13", "feat3d", "feat333", "primseg"],
             "thorough": ["seg13", "seg22", "seg3d", "seg13n", "feat13", "feat22", "feat3d", "feat333", "primseg", "seg13w"]},
     # seg13z: tracks rebuilt from the graph, IoU enabled in bulk at that point; feat13: enable / disable at any point
     "C09": {"quick": ["seg13", "seg3d", "seg13z", "feat13", "seg5s", "seg13w"], "thorough": ["seg13", "seg22", "seg3d", "seg13n", "seg13z", "feat13", "feat22", "seg5s", "seg13w"]},
     "C10": {"quick": ["featns", "feat13", "seg5s", "featns_s", "feat13_s"], "thorough": ["featns", "feat13", "feat22", "seg5s", "featns_s", "feat13_s"]},
-    "C11": {"quick": ["struct3", "struct4s", "struct5s", "struct3p", "struct3n0", "seg13", "seg6s", "struct3k", "struct3w"], "thorough": ["struct3", "struct4s", "struct5s", "struct3p", "struct3c", "struct4", "seg13", "seg22", "seg6s", "struct3k", "struct3w"]},
+    "C11": {"quick": ["struct3", "struct4s", "struct5s", "struct3p", "struct3n0", "seg13", "seg6s", "struct3k"], "thorough": ["struct3", "struct4s", "struct5s", "struct3p", "struct3c", "struct4", "seg13", "seg22", "seg6s", "struct3k", "struct3w"]},
     "C20": {"quick": ["struct3", "struct4s", "struct5s", "struct3n0", "seg13", "seg6s"], "thorough": ["struct3", "struct4s", "struct5s", "struct4", "seg13", "struct3k", "struct3w"]},
 }
 
